@@ -200,6 +200,35 @@ def check_float_types(idx: Index, rep: Report) -> None:
         raise AnalysisError(f"{CT}: float type entries of the converter table not found ({n})")
 
 
+def check_constant_payload(idx: Index, rep: Report) -> None:
+    """create_constant turns the attribute's payload into the LLVM constant.  Whatever it returns must be built from that
+    payload on every path: a shortcut that spells some values another way (`None` = zeroinitializer when the value `== 0`)
+    changes the constant whenever Python's comparison merges two payloads -- 0.0 == -0.0, True == 1."""
+    r = rep.rule("C23.R9", "every constant returned by create_constant is built from the payload the attribute handler returned, on every path", floor=1)
+    f = idx.func(CO, "create_constant")
+    cfg = CFG(f.node)
+    rets = [n for n in walk_local(f.node) if isinstance(n, ast.Return) and n.value is not None]
+    if not rets:
+        raise AnalysisError(f"{f.fq}: no return")
+    for rt in rets:
+        inst = f"{f.fq}:return@{rt.lineno - f.node.lineno}"
+        txt = resolved_text(cfg, rt.value, cfg.node_of(rt))
+        try:
+            e = ast.parse(txt, mode="eval").body
+        except SyntaxError:
+            raise AnalysisError(f"{f.fq}: returned expression not understood")
+        if not (isinstance(e, ast.Call) and unparse(e.func).endswith("Constant") and len(e.args) == 2):
+            raise AnalysisError(f"{f.fq}: `{unparse(rt)[:60]}` is not an ir.Constant(type, payload) construction")
+        payload = unparse(e.args[1])
+        if re.search(r"\(value\)", payload) and ("_CONSTANT_VALUE_MAP" in payload or "handler" in payload):
+            r.ok(inst, f"{CO}:{rt.lineno} payload `{payload[:50]}`")
+        else:
+            from ..astutil import text_facts as _tf9
+
+            facts = [t for t, _p in _tf9(f.node, rt)]
+            r.fail(inst, Finding("C23.R9", f.fq, "constant-not-from-payload", f"`{unparse(rt)[:70]}` builds the constant from `{payload[:40]}` instead of the attribute's payload (under {facts[-1:] or 'no test'}): when the deciding test compares Python values, payloads that compare equal but are different constants (-0.0 and 0.0) are emitted as the same constant", f"{CO}:{rt.lineno}"))
+
+
 def check(idx: Index, rep: Report, tier: str) -> str:
     r = rep.rule("C23.R1", "every entry of the translation tables agrees with the mnemonic of the dialect operation it is keyed by", floor=45)
     n = 0
@@ -496,6 +525,7 @@ def check(idx: Index, rep: Report, tier: str) -> str:
 
     rep.run(check_structure, idx, rep)
     rep.run(check_float_types, idx, rep)
+    rep.run(check_constant_payload, idx, rep)
     return (
         "Table agreement of the LLVM translation tables with the llvm dialect's own operation names (binary ops, casts, "
         "intrinsics, argument attributes), predicate tables against the meaning of the mnemonics, dispatcher coverage and phi "
